@@ -53,12 +53,15 @@ def strategy(tier):
           (2, st.tuples(st.just('fail'), st.booleans()).map(list)),
           # a caller is interrupted (its own timeout, or killed) while it waits for the connection to open
           (2, st.tuples(st.just('interrupt'), st.sampled_from(['timeout', 'kill'])).map(list)),
+          # the connection reports Busy (open and healthy, momentarily occupied) or plain Open again
+          (2, st.tuples(st.just('busy'), st.booleans()).map(list)),
           (2, st.tuples(st.just('advance'), st.sampled_from([1, 4, 12])).map(list))), 0, 50),
   })
   ref = st.fixed_dictionaries({
       'kind': st.just('refcount'),
       'open_delay_ms': st.sampled_from([0, 5]),
       'close_delay_ms': st.sampled_from([0, 0, 4]),
+      'open_fails': st.sampled_from([False, False, True]),
       'ops': sized_list(weighted((4, st.just(['open'])), (5, st.just(['close'])),
                                  (1, st.tuples(st.just('advance'), st.sampled_from([1, 10])).map(list))), 0, 40),
   })
@@ -251,6 +254,11 @@ def _exec_singleton(plan):
         flags.add('failure')
         if op[1]:
           c.on_faulted.Set(Exception('conn failed'))
+    elif k == 'busy':
+      l = live()
+      if l and l[0].state in (ChannelState.Open, ChannelState.Busy):
+        l[0]._state = ChannelState.Busy if op[1] else ChannelState.Open
+        flags.add('connection_reported_busy')
     elif k == 'interrupt':
       waiting = [r for r in reqs if r.conn is None and not r.completions and not r.greenlet.dead and not getattr(r, 'raced_close', False)]
       if waiting and any(c.state == ChannelState.Idle for c in prov.conns):
@@ -295,11 +303,12 @@ class MockSink(ClientMessageSink):
     if self.closing:
       self.open_during_close += 1
     ar = self._ar = AsyncResult()
+    done = (lambda: ar.set_exception(OSError(111, 'connection refused'))) if getattr(self, 'open_fails', False) else (lambda: ar.set(True))
     if self.delay:
-      g = gevent.Greenlet(ar.set, True)
+      g = gevent.Greenlet(done)
       g.start_later(self.delay)
     else:
-      ar.set(True)
+      done()
     return ar
 
   def Close(self):
@@ -321,6 +330,7 @@ class MockSink(ClientMessageSink):
 def _exec_refcount(plan):
   cd = plan.get('close_delay_ms', 0) / 1000.0
   under = MockSink(plan['open_delay_ms'] / 1000.0, cd)
+  under.open_fails = bool(plan.get('open_fails'))      # every holder is then handed the same failed open result
   rc = RefCountedSink(under)
   count = 0
   want_opens = want_closes = 0
